@@ -214,8 +214,11 @@ def validate_evidence(ev):
 
 
 def write_evidence(pid, ev):
-    os.makedirs(os.path.join(env.VERIF, "evidence"), exist_ok=True)
-    path = os.path.join(env.VERIF, "evidence", f"{pid}.json")
+    # (VERIF_OUT: used when the checks are pointed at a scratch tree with a seeded change, so that the evidence of the
+    # real tree is not overwritten)
+    out = os.environ.get("VERIF_OUT") or env.VERIF
+    os.makedirs(os.path.join(out, "evidence"), exist_ok=True)
+    path = os.path.join(out, "evidence", f"{pid}.json")
     try:
         validate_evidence(ev)
     except FileNotFoundError:
@@ -226,7 +229,7 @@ def write_evidence(pid, ev):
 
 
 def write_replay(pid, v):
-    d = os.path.join(env.VERIF, "replays", pid)
+    d = os.path.join(os.environ.get("VERIF_OUT") or env.VERIF, "replays", pid)
     os.makedirs(d, exist_ok=True)
     path = os.path.join(d, sha({"sig": v["sig"], "input": v["input"]}) + ".json")
     with open(path, "w") as f:
